@@ -11,6 +11,7 @@ import Nitime.Model.C03
 import Nitime.Lemmas.C03
 import Nitime.Lemmas.C03Hist
 import Nitime.Lemmas.C03Memo
+import Nitime.Lemmas.C03Share
 import Mathlib.Tactic.Linarith
 import Mathlib.Tactic.Ring
 
@@ -1786,5 +1787,102 @@ theorem getInt_negative_twin (s : Series) (ev : Events) (k : Int) (h1 : k < 0) :
     rw [(events_getInt_negative ev k h1 h2).1, events_getInt_positions ev (k + ev.time.length) (by omega) (by omega)]
 
 example : (Series.getInt ⟨⟨0, 1, 3, 3, .s⟩, [[7, 8, 9]]⟩ (-1)) = .ok [9] := by decide
+
+/-! ### live objects that share parts (round 2, class L8) -/
+
+/-- LOOKUPS ON A SERIES ARE UNAFFECTED BY OPERATIONS ON OBJECTS DERIVED FROM IT, for every program.  `a` = `series[sid]`
+holds the axis object `p`, its lookups are asked of `v` (its data, the current value of `p`).  Let `cs` be ANY program of
+constructions (`TimeSeries(data, time=axis)` on any axis, `a.copy()`, `a + k`, `a.during(e)` and the same on every object made
+on the way), reads of `.time` of any series, copies of any axis, lookups on anything, in-place operators `+= -= *= /=` on any
+axis object other than `p` itself and on the `.time` of any series other than `a` itself.  Then afterwards `a` still holds
+`p`, every lookup on `a` answers exactly what it answered before — `lookup` of the unchanged contents — and the axis object
+any OTHER series hands out as its `.time` is never `p`. -/
+theorem lookup_unaffected_by_ops_on_derived_objects (st : Store) (sid p : Nat) (v : Series) (h : st.Holds sid p v)
+    (cs : List SCmd) (hcs : ∀ c ∈ cs, c.avoids sid p) (op : String) (rest : List String) :
+    (runS sIntended st cs).Holds sid p v ∧
+    (execS sIntended (runS sIntended st cs) (.look sid op rest)).2 = (execS sIntended st (.look sid op rest)).2 ∧
+    (execS sIntended (runS sIntended st cs) (.look sid op rest)).2 = lookup (.series v) op rest ∧
+    (∀ sid' q, sid' ≠ sid → ((runS sIntended st cs).allocTime sid').timeId sid' = some q → q ≠ p) := by
+  have h' := runS_holds h cs hcs
+  refine ⟨h', ?_, ?_, ?_⟩
+  · rw [look_answer h', look_answer h]
+  · rw [look_answer h']
+  · intro sid' q hne hq hqp
+    subst hqp
+    have h2 := Store.holds_allocTime h' sid'
+    obtain ⟨s1, hs1, ht1⟩ := Store.timeId_some hq
+    obtain ⟨s2, hs2, ht2⟩ := Store.timeId_some h2.cached
+    exact hne (h2.priv sid' sid s1 s2 q hs1 hs2 ht1 ht2)
+
+/-- a series built on a caller's axis gets an axis object of its OWN: after `s = TimeSeries(data, time=axes[ax])` and the
+first read of `s.time`, `s` holds the NEW object `axes.length` (≠ `ax`, ≠ every object that existed), whose value is the
+caller's axis at construction; so (previous theorem) whatever the caller does to `axes[ax]` afterwards — and to copies
+of `s`, arithmetic results, sibling series on the same axis — lookups on `s` answer as on the day it was built -/
+theorem series_on_caller_axis_holds_own_axis (st : Store) (hwf : st.WF) (hpriv : st.Priv) (ax : Nat) (a : UAxis)
+    (data : List (List Int)) (ha : st.axes[ax]? = some a) (hn : rowLen data = a.n) :
+    (runS sIntended st [.seriesOn ax data, .readTime st.series.length]).Holds st.series.length st.axes.length
+      ⟨ownOf a, data⟩ ∧ ax ≠ st.axes.length := by
+  have hax : ax < st.axes.length := (List.getElem?_eq_some_iff.mp ha).1
+  refine ⟨?_, by omega⟩
+  have e1 : stepS sIntended st (.seriesOn ax data) = st.pushSeries (SObj.mk data (ownOf a) none) := by
+    simp [stepS, execS, ha, hn, sIntended]
+  have hget : (st.pushSeries (SObj.mk data (ownOf a) none)).series[st.series.length]? = some (SObj.mk data (ownOf a) none) := by
+    simp [Store.pushSeries]
+  have e2 : (st.pushSeries (SObj.mk data (ownOf a) none)).allocTime st.series.length =
+      { axes := st.axes ++ [ownOf a],
+        series := (st.series ++ [(SObj.mk data (ownOf a) none)]).set st.series.length (SObj.mk data (ownOf a) (some st.axes.length)) } := by
+    simp [Store.allocTime, hget]
+    simp [Store.pushSeries]
+  have hset : ((st.series ++ [SObj.mk data (ownOf a) none]).set st.series.length (SObj.mk data (ownOf a) (some st.axes.length))) =
+      st.series ++ [SObj.mk data (ownOf a) (some st.axes.length)] := by
+    simp
+  have e3 : runS sIntended st [.seriesOn ax data, .readTime st.series.length] =
+      { axes := st.axes ++ [ownOf a], series := st.series ++ [(SObj.mk data (ownOf a) (some st.axes.length))] } := by
+    simp only [runS, List.foldl_cons, List.foldl_nil, e1]
+    simp only [stepS, execS, e2, hset]
+    split <;> rfl
+  rw [e3]
+  refine ⟨?_, ?_, ?_, ?_⟩
+  · intro i s q hs hq
+    simp only [List.length_append, List.length_singleton]
+    rcases Store.getElem?_push _ _ _ _ hs with hs | ⟨_, rfl⟩
+    · have := hwf i s q hs hq; omega
+    · simp only [Option.some.injEq] at hq; omega
+  · intro i j x y q hx hy hxq hyq
+    rcases Store.getElem?_push _ _ _ _ hx with hx | ⟨hi, rfl⟩
+    · rcases Store.getElem?_push _ _ _ _ hy with hy | ⟨hj, rfl⟩
+      · exact hpriv i j x y q hx hy hxq hyq
+      · simp only [Option.some.injEq] at hyq
+        have := hwf i x q hx hxq; omega
+    · rcases Store.getElem?_push _ _ _ _ hy with hy | ⟨hj, rfl⟩
+      · simp only [Option.some.injEq] at hxq
+        have := hwf j y q hy hyq; omega
+      · omega
+  · simp [Store.timeId]
+  · simp [Store.viewOf]
+
+def sharedStart : Store := ⟨[⟨0, 2, 3, 6, .ps⟩], []⟩
+def sharedProg : List SCmd := [.seriesOn 0 [[7, 8, 9]], .readTime 0, .copy 0, .inplaceTime 1 (.add [5] true)]
+def sharedBoth : Store := runS ⟨true, true⟩ sharedStart sharedProg
+def sharedIntended : Store := runS sIntended sharedStart sharedProg
+
+/-- COUNTEREXAMPLE (the two cooperating short-cuts: the constructor keeps a matching axis object as `.time`, `copy()` hands
+`self.time` itself to it).  `a = TimeSeries([[7, 8, 9]], time=axis)`, `b = a.copy()`, `b.time += 5 ps`: with the short-cuts
+`a` and `b` hold the SAME axis object 0 (the caller's), `a`'s lookups are asked of an axis that starts at 5 — `a.at(0 ps)` is
+refused and `a.at(5 ps)` returns the sample stored at 0 ps; under `sIntended` `a` holds object 1, `b` object 2, and `a.at(0 ps)`
+is `[7]` before and after. -/
+theorem shared_axis_counterexample :
+    (∀ c ∈ sharedProg, c.avoids 0 1) ∧
+    (sharedBoth.timeId 0 = some 0 ∧ sharedBoth.timeId 1 = some 0 ∧
+      (sharedBoth.viewOf 0).map (·.axis.t0) = some 5 ∧
+      (sharedBoth.viewOf 0).bind (fun v => (v.at [0]).toOption) = none ∧
+      (sharedBoth.viewOf 0).bind (fun v => (v.at [5]).toOption) = some [[7]]) ∧
+    (sharedIntended.timeId 0 = some 1 ∧ sharedIntended.timeId 1 = some 2 ∧
+      (sharedIntended.viewOf 0).map (·.axis.t0) = some 0 ∧
+      (sharedIntended.viewOf 0).bind (fun v => (v.at [0]).toOption) = some [[7]]) := by
+  decide
+
+example : (Store.mk [⟨0, 2, 3, 6, .ps⟩] []).WF ∧ (Store.mk [⟨0, 2, 3, 6, .ps⟩] []).Priv :=
+  ⟨fun i s p hs _ => by simp at hs, fun i j s t p hs _ _ _ => by simp at hs⟩
 
 end Nitime.C03.Props
